@@ -67,7 +67,8 @@ REQUIRED_COUNTERS = ['histories_checked', 'trial_boundary_faults',
                      'near_miss_growth_histories',
                      'rounds_with_numpy_or_retyped_numbers',
                      'histories_through_run_file_with_log',
-                     'growth_after_completion_histories']
+                     'growth_after_completion_histories',
+                     'rounds_continuing_with_the_same_objects']
 SHARD_TIMEOUT = {'quick': 1200, 'thorough': 5400}
 BINS_PER_CPU = 4
 
@@ -251,11 +252,14 @@ def run_history(out, hist, tag):
             'final': {kk: hist['final'][kk] for kk in ('target', 'sf',
                                                        'nsims', 'types')
                       if kk in hist['final']},
-            'via_run_file': bool(hist.get('via_run_file'))}
+            'via_run_file': bool(hist.get('via_run_file')),
+            'reuse_objects': hist.get('reuse_objects')}
     mech = f"history/{hist['fmt']}"
     snap_dirs = []
     foreign = set()
     fired = 0
+    keep = {'mode': hist['reuse_objects']} if hist.get('reuse_objects') \
+        else None
     try:
         inc = 1
         for i, r in enumerate(hist['rounds']):
@@ -266,7 +270,12 @@ def run_history(out, hist, tag):
                                stop_after_trials=r.get('stop_after'),
                                stop_kind=r.get('kind', 'kill'),
                                spec_types=r.get('types'),
-                               via_run_file=bool(hist.get('via_run_file')))
+                               via_run_file=bool(hist.get('via_run_file')),
+                               keep=keep)
+            if info.get('reused_objects'):
+                out.count('rounds_continuing_with_the_same_objects')
+            if keep is not None and info['status'] == 'stopped':
+                keep.pop('batch', None)     # the process died: objects gone
             if r.get('types'):
                 out.count('rounds_with_numpy_or_retyped_numbers')
             inc += 1
@@ -288,7 +297,10 @@ def run_history(out, hist, tag):
         last = latest_snapshot(snap_dirs)
         info = V.run_round(f['spec'], out_file, f['target'], f['sf'], inc,
                            snap_dir=sd, spec_types=f.get('types'),
-                           via_run_file=bool(hist.get('via_run_file')))
+                           via_run_file=bool(hist.get('via_run_file')),
+                           keep=keep)
+        if info.get('reused_objects'):
+            out.count('rounds_continuing_with_the_same_objects')
         if hist.get('via_run_file'):
             out.count('histories_through_run_file_with_log')
         if info['status'] != 'completed':
@@ -444,9 +456,15 @@ def random_histories(rng, n, tier):
                                  [(3, 4)] if not tracer and (3, 4)
                                  not in sizes else [])
         spec = mk(list(rates), sizes=tuple(sizes))
+        via = bool(all(t is None for t in tmode) and rng.random() < 0.35)
+        reuse = None
+        if not via and all(t is None for t in tmode) and rng.random() < 0.4:
+            reuse = str(rng.choice(['batch', 'sims']))
+            for r in rounds:
+                r['kind'] = 'interrupt'     # a pause, not a dead process
         hs.append({'fmt': fmt, 'tracer': tracer, 'rounds': rounds,
-                   'via_run_file': bool(all(t is None for t in tmode)
-                                        and rng.random() < 0.35),
+                   'reuse_objects': reuse,
+                   'via_run_file': via,
                    'final': {'spec': spec, 'target': target,
                              'sf': int(rng.choice([1, 2, 3, 7])),
                              'nsims': len(rates) * len(sizes),
